@@ -28,6 +28,7 @@ pub struct Unit {
 }
 pub trait CallWith<F> { fn call_with(&self, f: F); }
 macro_rules! impl_call_with { ($($t:ident $i:tt),*) => { impl<$($t: Clone,)* Func: Fn($($t),*)> CallWith<Func> for ($($t,)*) { fn call_with(&self, f: Func) { f($(self.$i.clone()),*) } } } }
+impl<Func: Fn()> CallWith<Func> for () { fn call_with(&self, f: Func) { f() } }
 impl_call_with!(A 0);
 impl_call_with!(A 0, B 1);
 impl_call_with!(A 0, B 1, C 2);
